@@ -1,22 +1,23 @@
 (* Model of pypose/optim/kernel.py (Huber, PseudoHuber, Cauchy, SoftLOne, Arctan, Tolerant, Scale)
-   and pypose/optim/corrector.py (FastTriggs, Triggs), exactly as coded.
+   and pypose/optim/corrector.py (FastTriggs, Triggs), exactly as coded (source after the repairs
+   e6f8307, 298dcfc, af4d69c; the behaviour before them is kept as the [_old] definitions at the end of
+   the section, used only by the [_old_..._refuted] history theorems).
 
    Kernels.  A kernel is (name, p1, p2): p1 = delta (a for Tolerant), p2 = b (Tolerant only).
      kernel k p1 p2 x : option F
-       None  = __init__ asserts (parameter check), forward asserts (input >= 0), or the selected
-               expression divides by zero (Arctan with delta = 0: input / delta**2);
+       None  = __init__ asserts (parameter check), forward asserts (input >= 0, all seven kernels), or
+               the selected expression divides by zero (Arctan with delta = 0: input / delta**2);
        Some y = the value forward returns for one element x.
-   Scale.forward has NO sign assertion (the other six have) - modelled as coded.
    With the assertions passed, no other sqrt / log / division leaves its domain
    (Proofs/Kernel.v, kernel_side_conditions_hold).
 
    kernel_d1 / kernel_d2 = what torch.autograd returns for rho'(x), rho''(x) on the branch forward
    selects (at the Huber threshold: the "otherwise" branch, as `mask = sqrt(x) < delta` is false).
+   Triggs.compute_grads returns g2 = 0 when rho' has no autograd dependence on x (Scale, rho = c x):
+   kernel_d2 KScale = 0.
    (In float64 autograd forms Tolerant's rho'' as a difference of two terms of size rho'/|b|; for
    a/|b| >~ 37 and x < a the result is rounding noise of either sign although kernel_d2 < 0 - the tie
    therefore feeds the correctors' model with the g1, g2 the implementation itself computed.)
-   kernel_d2_graph k = false when rho' has no autograd dependence on x (Scale: y = delta * x), in
-   which case Triggs.compute_grads' second `grad(g1.sum(), x)` raises RuntimeError.
 
    Correctors, per residual block i: R_i = list of d numbers, J_i = d rows (lists of width p);
    x = sum R_i^2, g1 = rho'(x), g2 = rho''(x) are arguments (the code gets them from autograd).
@@ -24,7 +25,7 @@
      Triggs.forward     : se = sqrt(g1); sR = se R; sJ = se J;
                           M = not (x == 0 or g2 <= 0)
                           on M: alpha = 1 - sqrt(clamp(1 + 2 x g2 / g1, min=0))
-                                sR[M] = se[M] / (1 - alpha)          <- every component; R is dropped
+                                sR[M] = se[M] / (1 - alpha) * R[M]
                                 Q = einsum('d,k,kl->dl', R, R, sJ);  sJ[M] = sJ[M] - (alpha / x) Q
    None = the float code produces NaN/Inf for the block (sqrt of a negative g1, division by a zero g1
    or by a zero 1 - alpha).  Shapes are not modelled (J.view raising on a wrong row count). *)
@@ -41,8 +42,9 @@ Definition kname_of_nat (n : nat) : kname :=
   | _ => KScale
   end%nat.
 
-(* does autograd's g1 = rho'(x) depend on x in the graph?  (Scale: g1 is the constant delta) *)
-Definition kernel_d2_graph (k : kname) : bool := match k with KScale => false | _ => true end.
+(* before af4d69c: did autograd's g1 = rho'(x) depend on x in the graph?  (Scale: g1 is the constant delta,
+   and Triggs.compute_grads' second `grad(g1.sum(), x)` raised) *)
+Definition kernel_d2_graph_old (k : kname) : bool := match k with KScale => false | _ => true end.
 
 Section Kernel.
 Context {F : Type} {NF : Num F} {TF : Trans F}.
@@ -79,7 +81,6 @@ Definition kernel_f (k : kname) (p1 p2 x : F) : F :=
 Definition kernel (k : kname) (p1 p2 x : F) : option F :=
   if negb (kernel_ok k p1 p2) then None                 (* __init__ assert *)
   else match k with
-  | KScale => Some (scale_f p1 x)                       (* forward: return self.delta * input *)
   | KArctan =>
       if zero <=? x then                                (* assert torch.all(input >= 0) *)
         if p1 * p1 =? zero then None                    (* input / self.delta2 with delta2 = 0 *)
@@ -159,7 +160,7 @@ Definition triggs_block (g1 g2 : F) (R : list F) (J : list (list F)) : option bl
         else
           let r' := se / (one - alpha) in
           let c := alpha / x in
-          Some (map (fun _ => r') R,
+          Some (scale_vec r' R,
                 map (fun rj => mapi_from (fun l s => s - c * (fst rj * dot R (col sJ l))) 0 (snd rj))
                     (combine R sJ))
     else Some (sR, sJ).
@@ -173,21 +174,42 @@ Fixpoint mapM {A B : Type} (f : A -> option B) (l : list A) : option (list B) :=
 Definition sqnorm (b : block) : F := dot (fst b) (fst b).
 Definition fasttriggs (rho1 : F -> F) (bs : list block) : option (list block) :=
   mapM (fun b => fasttriggs_block (rho1 (sqnorm b)) (fst b) (snd b)) bs.
-(* [graph] = false: g1 does not depend on x in the autograd graph, compute_grads raises *)
-Definition triggs (graph : bool) (rho1 rho2 : F -> F) (bs : list block) : option (list block) :=
-  if graph then mapM (fun b => triggs_block (rho1 (sqnorm b)) (rho2 (sqnorm b)) (fst b) (snd b)) bs
-  else None.
+Definition triggs (rho1 rho2 : F -> F) (bs : list block) : option (list block) :=
+  mapM (fun b => triggs_block (rho1 (sqnorm b)) (rho2 (sqnorm b)) (fst b) (snd b)) bs.
 
 (* with a built-in kernel *)
 Definition fasttriggs_kernel (k : kname) (p1 p2 : F) := fasttriggs (kernel_d1 k p1 p2).
-Definition triggs_kernel (k : kname) (p1 p2 : F) :=
-  triggs (kernel_d2_graph k) (kernel_d1 k p1 p2) (kernel_d2 k p1 p2).
+Definition triggs_kernel (k : kname) (p1 p2 : F) := triggs (kernel_d1 k p1 p2) (kernel_d2 k p1 p2).
 
 (* flat interface for the correspondence: 1 :: R' ++ concat J', or [0] *)
 Definition block_l (o : option block) : list F :=
   match o with Some (R, J) => one :: R ++ concat J | None => [zero] end.
 Definition fasttriggs_l (g1 : F) (R : list F) (J : list (list F)) := block_l (fasttriggs_block g1 R J).
 Definition triggs_l (g1 g2 : F) (R : list F) (J : list (list F)) := block_l (triggs_block g1 g2 R J).
+
+(* ------------------------------------------------------------------ behaviour before the repairs
+   (history only: the [_old_..._refuted] theorems of Props/C09.v) *)
+(* before e6f8307 Scale.forward had no sign assertion *)
+Definition kernel_old (k : kname) (p1 p2 x : F) : option F :=
+  match k with
+  | KScale => if negb (kernel_ok k p1 p2) then None else Some (scale_f p1 x)
+  | _ => kernel k p1 p2 x
+  end.
+(* before 298dcfc: sR[M] = se[M] / (1 - alpha) - every component, R dropped *)
+Definition triggs_block_old (g1 g2 : F) (R : list F) (J : list (list F)) : option block :=
+  match triggs_block g1 g2 R J with
+  | Some (R', J') =>
+      if triggs_mask (dot R R) g2
+      then Some (map (fun _ => tsqrt g1 / (one - (one - tsqrt (maxF zero (one + two * dot R R * g2 / g1))))) R, J')
+      else Some (R', J')
+  | None => None
+  end.
+(* before af4d69c: [graph] = false (rho' constant in the autograd graph): compute_grads raised *)
+Definition triggs_old (graph : bool) (rho1 rho2 : F -> F) (bs : list block) : option (list block) :=
+  if graph then mapM (fun b => triggs_block_old (rho1 (sqnorm b)) (rho2 (sqnorm b)) (fst b) (snd b)) bs
+  else None.
+Definition triggs_kernel_old (k : kname) (p1 p2 : F) :=
+  triggs_old (kernel_d2_graph_old k) (kernel_d1 k p1 p2) (kernel_d2 k p1 p2).
 End Kernel.
 
 (* ------------------------------------------------------------------ exact route (Q, vm_compute)
